@@ -137,9 +137,15 @@ def eq_terms(a: Term, b: Term):
     try:
         tr = S.Translator()
         x, y = tr.tr(a), tr.tr(b)
-        return S.decide_equal(x, y)
+        ok, how = S.decide_equal(x, y)
     except Exception as e:  # noqa
-        return None, f"not comparable: {type(e).__name__}"
+        ok, how = None, f"not comparable: {type(e).__name__}"
+    if ok is None:
+        # same shape, differing only in an index / constant / comparator / attribute / reduction kind
+        why = S.term_definite_difference(a, b)
+        if why:
+            return False, f"code has {show(a)[:60]} where {show(b)[:60]} is required ({why})"
+    return ok, how
 
 
 def _is_index_expr(t: Term) -> bool:
@@ -227,7 +233,7 @@ ELEMENTWISE_FUNCS = {"numpy.sqrt", "numpy.square", "numpy.abs", "numpy.exp", "nu
 def push_sub(t: Term) -> Term:
     """Distribute constant subscripts over element-wise arithmetic: (a / b)[k] -> a[k] / b[k]."""
     def fn(x: Term):
-        if x[0] == "sub" and (is_const(x[2]) or x[2][0] == "slice"):
+        if x[0] == "sub" and (is_const(x[2]) or x[2][0] in ("slice", "loopvar", "elem")):
             b = x[1]
             if b[0] == "bin" and b[1] in ("+", "-", "*", "/", "**"):
                 return ("bin", b[1], fn(("sub", b[2], x[2])) or ("sub", b[2], x[2]), fn(("sub", b[3], x[2])) or ("sub", b[3], x[2]))
